@@ -207,3 +207,38 @@ Example C03_ex_decoder_run :
   end.
 Proof. vm_compute. split; reflexivity. Qed.
 
+
+(* ---- the block-compressor hypothesis DISCHARGED for independent blocks without dictionary (Proofs/BlkInst.v) ----
+   [blk] is instantiated with the block-compressor models that lz4frame.c calls there: LZ4_compress_fast_extState_fastReset
+   (level < 2), LZ4_compress_HC_extStateHC_fastReset (level 2: LZ4MID; level >= 3: hash chain / optimal parser), each with
+   the capacity srcSize-1 that LZ4F_makeBlock passes, the lz4/lz4hc context before the n-th call being ANY state satisfying
+   the models' context invariants (states_ok; the states a session reaches do: BlkInst.fast_run_ok / mid_run_ok /
+   hc_run_states_ok).  No hypothesis about block compressors is left. *)
+From LZ4V Require Import Model.FastApi Model.HcMidApi Model.HcChainApi Model.HcOptApi.
+From LZ4V Require Import Proofs.BlkInst Proofs.BlkFrameInst.
+
+Theorem C03_roundtrip_indep_discharged : forall level sf sm sh, states_ok sf sm sh ->
+  forall c0 po ms F X,
+  prefs_opt_ok po -> uncompressed_only_if_independent po ms -> len X < U64 ->
+  p_level (eff_prefs po) = level -> p_blockMode (eff_prefs po) = FC_blockIndependent ->
+  session (blk_indep level sf sm sh) c0 po NoDict ms = Some (F, X) ->
+  frame_decode spec_decode false (dict_of NoDict) F = Some (X, []).
+Proof. exact c03_roundtrip_indep. Qed.
+Print Assumptions C03_roundtrip_indep_discharged.
+
+(* the states of a session that starts from fresh contexts form such an oracle (xs n = the n-th block compressed) *)
+Theorem C03_indep_oracle_exists : forall level xs, (forall n, blk_guard (xs n) = true) ->
+  states_ok (fast_run ctx_init level xs) (mid_run hc_init xs) (hc_run_states cc_init (Z.max 3 level) xs).
+Proof. exact fresh_run_states_ok. Qed.
+Print Assumptions C03_indep_oracle_exists.
+
+(* Non-vacuity: a two-block session (block checksums, content checksum) through the instantiated model at levels 0, -3
+   (acceleration 4), 2 (LZ4MID), 9 (hash chain) and 12 (optimal): 108 bytes -> 60-byte frames that the specification decodes *)
+Example C03_indep_discharged_run :
+  let ops := [MUpdate (repeat 97 40 ++ [1;2;3;4;5;6;7;8]); MFlush; MUpdate (concat (repeat [5;6;7;8;9] 12))] in
+  let run := fun l => match session (blk_indep l (fun _ => ctx_init) (fun _ => hc_init) (fun _ => cc_init)) cctx_zero
+                                     (Some (mkPrefs 4 1 1 0 0 1 l 1 0)) NoDict ops with
+                      | Some (F, X) => (length F, match frame_decode spec_decode false [] F with Some (Y, []) => Z.of_nat (length Y) | _ => -1 end)
+                      | None => (0%nat, -1) end in
+  (run 0, run (-3), run 2, run 9, run 12) = ((60%nat, 108), (60%nat, 108), (60%nat, 108), (60%nat, 108), (60%nat, 108)).
+Proof. vm_compute. reflexivity. Qed.
